@@ -63,7 +63,9 @@ Proof.
         -- cbn [concat]. rewrite drop_app_le by lia. reflexivity.
       * destruct (need =? len c) eqn:E2; [assumption|]. constructor; [|assumption].
         intro H. apply (f_equal len) in H. rewrite len_drop in H. unfold len in H at 2. simpl in H. lia.
-    + specialize (IH (need - len c) t true Hcs ltac:(lia)).
+    + assert (Hlc: len c <> 0) by (destruct c; [contradiction|rewrite len_cons; lia]).
+      replace (got || negb (len c =? 0)) with true by (destruct got; cbn [orb]; lia).
+      specialize (IH (need - len c) t true Hcs ltac:(lia)).
       destruct (read_full_aux (need - len c) true cs t) as [[r e] rest].
       destruct IH as (He & Hr & Hrest & Hw). repeat split; auto.
       * subst r. rewrite take_app_ge by lia. reflexivity.
@@ -86,6 +88,8 @@ Proof.
     inversion Hwf as [|? ? Hc Hcs]; subst.
     cbn [concat] in *. rewrite len_app in Hn.
     destruct (need <=? len c) eqn:E1; [lia|].
+    assert (Hlc0: len c <> 0) by (destruct c; [contradiction|rewrite len_cons; lia]).
+    replace (got || negb (len c =? 0)) with true by (destruct got; cbn [orb]; lia).
     specialize (IH (need - len c) t true Hcs ltac:(lia)).
     destruct (read_full_aux (need - len c) true cs t) as [[r e] rest].
     destruct IH as (Hr & Hrest & He). subst r rest. repeat split; auto.
